@@ -33,7 +33,7 @@ fn loop_class(p: &P26, lp: usize) -> String {
         feats.push("defer_tick_lazy");
     }
     if has(&|o| *o == Op26::BatchLazy) {
-        feats.push("batch_lazy");
+        feats.push(if has(&|o| *o == Op26::Batch) || has(&|o| *o == Op26::Defer) { "batch_lazy" } else { "only-lazy-triggers" });
     }
     format!("{}{}", if d == 1 { "root-loop" } else { "nested-loop" }, if feats.is_empty() { String::new() } else { format!("+{}", feats.join("+")) })
 }
@@ -109,37 +109,77 @@ pub fn judge(rep: &mut Reporter, m: &Manifest, reg: &Registry, p: &P26, h: &Hist
     if capped {
         return nviol;
     }
-    // taps
+    // taps: the first deviation in execution order (a deviation can only be caused by what ran before it)
     let mut iterated = false;
-    'sites: for (site, lp) in &p.taps {
-        for t in 0..ticks_done.min(h.n_ticks()) as u32 {
-            let empty = Vec::new();
-            let w = want.taps.get(&(*site, t)).unwrap_or(&empty);
-            let g = got.get(&(*site, t)).unwrap_or(&empty);
-            rep.eval();
-            if *lp != 0 && w.len() >= 2 {
-                iterated = true;
+    for ((_site, _t), w) in want.taps.iter() {
+        if tap_loop.get(_site).copied().unwrap_or(0) != 0 && w.len() >= 2 {
+            iterated = true;
+        }
+    }
+    {
+        let empty: Vec<Vec<It>> = Vec::new();
+        let mut idx: BTreeMap<(u16, u32), usize> = BTreeMap::new();
+        let mut open2: BTreeMap<u16, Vec<It>> = BTreeMap::new();
+        let mut first: Option<(u16, u32, &'static str)> = None;
+        let mut cur_tick = 0u32;
+        let missing = |t: u32, idx: &BTreeMap<(u16, u32), usize>| -> Option<u16> {
+            p.taps.iter().map(|(s, _)| *s).find(|s| idx.get(&(*s, t)).copied().unwrap_or(0) < want.taps.get(&(*s, t)).map(|v| v.len()).unwrap_or(0))
+        };
+        for e in &evs {
+            if first.is_some() {
+                break;
             }
-            if w == g {
-                continue;
+            if e.tick != cur_tick {
+                // the previous tick is complete: did some tap stop early?
+                for t in cur_tick..e.tick {
+                    if first.is_none() {
+                        if let Some(s) = missing(t, &idx) {
+                            first = Some((s, t, "stopped-before-fixpoint"));
+                        }
+                    }
+                }
+                cur_tick = e.tick;
+                if first.is_some() {
+                    break;
+                }
             }
-            let root = p.depth(*lp) == 1;
-            let kind = if root && g.len() > 1 {
-                "root-loop-ran-more-than-once-in-a-tick"
-            } else if g.len() < w.len() {
-                "stopped-before-fixpoint"
-            } else if g.len() > w.len() {
-                "extra-iterations"
-            } else {
-                "window-content-differs"
-            };
+            match e.kind {
+                EvKind::Item => open2.entry(e.site).or_default().push(e.x),
+                EvKind::End => {
+                    let mut v = open2.remove(&e.site).unwrap_or_default();
+                    v.sort();
+                    let k = idx.entry((e.site, e.tick)).or_insert(0);
+                    let w = want.taps.get(&(e.site, e.tick)).unwrap_or(&empty);
+                    rep.eval();
+                    let lp = tap_loop.get(&e.site).copied().unwrap_or(0);
+                    if *k >= w.len() {
+                        first = Some((e.site, e.tick, if p.depth(lp) == 1 && *k >= 1 { "root-loop-ran-more-than-once-in-a-tick" } else { "extra-iterations" }));
+                    } else if w[*k] != v {
+                        first = Some((e.site, e.tick, "window-content-differs"));
+                    }
+                    *k += 1;
+                }
+                EvKind::Read => {}
+            }
+        }
+        if first.is_none() {
+            for t in cur_tick..ticks_done.min(h.n_ticks()) as u32 {
+                if let Some(s) = missing(t, &idx) {
+                    first = Some((s, t, "stopped-before-fixpoint"));
+                    break;
+                }
+            }
+        }
+        if let Some((site, t, kind)) = first {
+            let lp = tap_loop.get(&site).copied().unwrap_or(0);
+            let w = want.taps.get(&(site, t)).unwrap_or(&empty);
+            let g = got.get(&(site, t)).unwrap_or(&empty);
             rep.violation(
-                &format!("C26|tap|{kind}|{}", loop_class(p, *lp)),
-                &format!("{} tick {t}: tap {site} in loop {lp} (depth {}) saw runs {:?}, the reference of the documented semantics gives {:?}", p.prog_id, p.depth(*lp), g, w),
+                &format!("C26|tap|{kind}|{}", loop_class(p, lp)),
+                &format!("{} tick {t}: tap {site} in loop {lp} (depth {}) saw runs {:?}, the reference of the documented semantics gives {:?}", p.prog_id, p.depth(lp), g, w),
                 case_json(m, p, h, json!({"tick": t, "tap": site, "loop": lp, "observed_runs": g, "reference_runs": w})),
             );
             nviol += 1;
-            break 'sites;
         }
     }
     // body-run counts read from the runtime's own metrics
